@@ -594,6 +594,36 @@ def gen_event_sync_scenario(seed: int, case_no: int) -> dict:
             "seed": seed, "case_no": case_no, "T": T, "epoch": epoch, "kinds": kinds}
 
 
+def add_second_process(case: dict, rng) -> None:
+    """A second host process in some ranks whose thread has the SAME thread id as a thread of the first one (as with several
+    processes recorded into one trace): a copy of one host thread's events under another pid; its launch-like calls get fresh
+    correlation ids without device partner."""
+    for rk in case["ranks"].values():
+        evs = rk["events"]
+        host = [e for e in evs if e.get("ph") == "X" and "dur" in e and e.get("cat") in ("cpu_op", "user_annotation", "cuda_runtime", "cuda_driver")
+                and "stream" not in (e.get("args") or {})]
+        if not host or rng.random() < 0.3:
+            continue
+        pid0 = host[0]["pid"]
+        tids = sorted({e["tid"] for e in host if e["pid"] == pid0})
+        tid = rng.choice(tids)
+        new_pid = max(e["pid"] for e in evs if isinstance(e.get("pid"), int)) + rng.choice([1, 50])
+        corr = max([(e.get("args") or {}).get("correlation", 0) for e in evs if isinstance((e.get("args") or {}).get("correlation", 0), int)] + [0]) + 1000
+        import copy
+        extra = []
+        for e in host:
+            if e["pid"] != pid0 or e["tid"] != tid or str(e.get("name", "")).startswith("ProfilerStep") or "autograd::" in str(e.get("name", "")):
+                continue
+            e2 = copy.deepcopy(e)
+            e2["pid"] = new_pid
+            a = e2.get("args")
+            if isinstance(a, dict) and "correlation" in a:
+                corr += 1
+                a["correlation"] = corr
+            extra.append(e2)
+        evs.extend(extra)
+
+
 def relabel_ranks(case: dict, salt: int = 0) -> dict:
     """give the ranks of a case arbitrary ids (a subset of a job, listed in arbitrary order) instead of 0..n-1"""
     rng = random.Random(case.get("seed", 0) * 7_000_003 + case.get("case_no", 0) * 31 + salt)
@@ -713,6 +743,9 @@ _reg(Profile(name="cgraph_big", tmax_choices=(600, 5000), n_ranks=(1, 1), n_thre
 _reg(Profile(name="kseq", tmax_choices=(24, 40, 110, 600), n_ranks=(1, 2), n_threads=(1, 2), max_depth=4, max_children=4, p_zero_dur=0.0, p_launch=0.6,
              p_missing_kernel=0.1, p_orphan_kernel=0.1, n_steps=(0, 2), p_kernel_zero=0.05, p_same_ts_as_launch=0.05,
              kernel_names=("gemm", "relu", "ncclKernel_AllReduce", "Memcpy DtoD (Device -> Device)", "bn")))
+_reg(Profile(name="kseq_bwd", tmax_choices=(24, 40, 110), n_ranks=(1, 2), n_threads=(2, 2), max_depth=4, max_children=4, p_zero_dur=0.0, p_launch=0.6,
+             p_missing_kernel=0.1, p_orphan_kernel=0.1, n_steps=(1, 2), p_kernel_zero=0.05, p_same_ts_as_launch=0.05, p_bwd_thread=0.9,
+             kernel_names=("gemm", "relu", "ncclKernel_AllReduce", "Memcpy DtoD (Device -> Device)", "bn")))
 _reg(Profile(name="cp", tmax_choices=(20, 40, 110, 600), n_ranks=(1, 2), n_threads=(1, 2), max_depth=4, p_zero_dur=0.0, p_launch=0.55, p_mem_launch=0.3,
              p_missing_kernel=0.1, p_orphan_kernel=0.1, n_steps=(0, 3), p_kernel_zero=0.03, p_same_ts_as_launch=0.1, p_sync=0.6, causal_sync=True,
              p_sync_touch=0.8, more_inner_annotations=True, shared_names=True, n_streams=(1, 3), epoch_choices=(0, 1000000)))
@@ -721,5 +754,7 @@ _reg(Profile(name="meta_bigvocab", n_steps=(0, 2), n_ranks=(2, 3), tmax_choices=
 _reg(Profile(name="cp_neg", tmax_choices=(20, 40, 110), n_ranks=(1, 1), n_threads=(1, 2), max_depth=4, p_zero_dur=0.0, p_launch=0.6, p_mem_launch=0.3,
              p_missing_kernel=0.1, n_steps=(0, 2), p_same_ts_as_launch=0.1, p_sync=0.3, causal_sync=True, p_fifo_overlap=0.5, kernel_causal=False,
              n_streams=(1, 2), epoch_choices=(0, 1000000)))
+_reg(Profile(name="cp_zero", tmax_choices=(10, 14, 20, 40), n_ranks=(1, 1), n_threads=(1, 2), max_depth=3, p_zero_dur=0.15, p_launch=0.6, p_mem_launch=0.3,
+             n_steps=(0, 2), p_kernel_zero=0.05, p_same_ts_as_launch=0.3, p_sync=0.5, causal_sync=True, p_sync_touch=0.8, more_inner_annotations=True, shared_names=True, n_streams=(1, 2), epoch_choices=(0,)))
 _reg(Profile(name="cp_tiny", tmax_choices=(10, 14, 20), n_ranks=(1, 1), n_threads=(1, 2), max_depth=3, p_zero_dur=0.0, p_launch=0.6, p_mem_launch=0.3,
              n_steps=(0, 2), p_kernel_zero=0.05, p_same_ts_as_launch=0.3, p_sync=0.7, causal_sync=True, p_sync_touch=0.8, more_inner_annotations=True, shared_names=True, n_streams=(1, 2), epoch_choices=(0,)))
